@@ -238,8 +238,14 @@ def _generate(rng, tier):
         pass
     elif r < 0.2:
         # 2**-12 keeps the stop time apart from every sum of the (larger) delays
-        scenario["until"] = scenario["initial_time"] + rng.choice([0.75, 1.5, 3, 5, 9, 20, 40]) \
-            + 2 ** -12
+        offset = rng.choice([0.75, 1.5, 3, 5, 9, 20, 40]) + 2 ** -12
+        if rng.random() < 0.25:
+            # a stop time of exactly 0 / 0.0 (falsy), reached from a negative initial time
+            scenario["initial_time"] = -offset
+            scenario["until"] = rng.choice([0, 0.0])
+            gen.features.add("until-zero")
+        else:
+            scenario["until"] = scenario["initial_time"] + offset
         gen.features.add("until")
     elif r < 0.3:
         scenario["until"] = {"ev": "E%d" % rng.randrange(gen.n_events)}
